@@ -195,7 +195,38 @@ def dangling_inputs(p, scope, allowed=()):
     return res
 
 
-@job("c16.struct_alone_wiring", ("C16", "C10", "C15"),
+def stale_reads(p, scope=""):
+    """connections below `scope` whose source runs after its target in the execution order of their lowest common group while
+    no group from there up to the root iterates (every nonlinear solver on the way is run-once): such an input holds the value
+    of the previous run (the declared default on the first run), so the outputs depend on the history of the instance"""
+    import openmdao.api as om
+    m = p.model
+    order, iterating = {}, {}
+    for g in m.system_iter(include_self=True, recurse=True, typ=om.Group):
+        order[g.pathname] = {sub.name: k for k, sub in enumerate(g._subsystems_myproc)}
+        iterating[g.pathname] = not isinstance(g.nonlinear_solver, om.NonlinearRunOnce)
+    res = []
+    for tgt, src in sorted(m._conn_global_abs_in2out.items()):
+        if src.startswith("_auto_ivc") or not tgt.startswith(scope):
+            continue
+        a, b = src.split(".")[:-1], tgt.split(".")[:-1]
+        k = 0
+        while k < min(len(a), len(b)) and a[k] == b[k]:
+            k += 1
+        if k >= len(a) or k >= len(b):
+            continue
+        lca = ".".join(a[:k])
+        o = order.get(lca)
+        if o is None or a[k] not in o or b[k] not in o:
+            continue
+        if o[a[k]] > o[b[k]]:
+            ups = [".".join(a[:j]) for j in range(k + 1)]
+            if not any(iterating.get(u, False) for u in ups):
+                res.append("%s reads %s, which runs later in group '%s'" % (tgt, src, lca or "<model>"))
+    return res
+
+
+@job("c16.struct_alone_wiring", ("C16", "C10", "C15", "C03"),
      cfgs=product([dict(model="tube"), dict(model="wingbox")], [dict(relief=False), dict(relief=True)], [dict(fuel=False), dict(fuel=True)], [dict(npm=0), dict(npm=2)])
      + [dict(model="tube", relief=False, fuel=False, npm=0, radius_cp=True), dict(model="tube", relief=True, fuel=False, npm=2, radius_cp=True)])
 def struct_alone_wiring(env, model, relief, fuel, npm, radius_cp=False):
@@ -221,9 +252,11 @@ def struct_alone_wiring(env, model, relief, fuel, npm, radius_cp=False):
     env.holds("C16,C10,C15", "SpatialBeamAlone: no input is left at its default while the group computes a variable of that name", not d, "; ".join(d[:4]))
     n_in = len([a for a in p.model._conn_global_abs_in2out if a.startswith("wing.")])
     env.holds("C16", "the wiring scan saw the group's inputs", n_in > 30, "%d inputs" % n_in)
+    st = stale_reads(p, "wing.")
+    env.holds("C16,C10,C15,C03", "SpatialBeamAlone: every input is computed before it is read (no value of the previous run)", not st, "; ".join(st[:4]))
 
 
-@job("c16.aerostruct_point_wiring", ("C16", "C15", "C11", "C17"), cfgs=[dict(nsurf=1, relief=False, npm=0), dict(nsurf=2, relief=True, npm=2)])
+@job("c16.aerostruct_point_wiring", ("C16", "C15", "C11", "C17", "C03"), cfgs=[dict(nsurf=1, relief=False, npm=0), dict(nsurf=2, relief=True, npm=2)])
 def aerostruct_point_wiring(env, nsurf, relief, npm):
     """the same for the coupled analysis point of a complete aerostructural model built the documented way (geometry groups
     connected to the point as in the repository's examples), with one and with two structural surfaces: inside the point
@@ -272,3 +305,10 @@ def aerostruct_point_wiring(env, nsurf, relief, npm):
               not d, "; ".join(d[:4]))
     n_in = len([a for a in p.model._conn_global_abs_in2out if a.startswith("AS.")])
     env.holds("C16", "the wiring scan saw the point's inputs", n_in > 100, "%d inputs" % n_in)
+    st = stale_reads(p, "")
+    env.holds("C16,C15,C11,C17,C03", "aerostructural model: outside the iterated coupled group every input is computed before it is read "
+              "(no value of the previous run)", not st, "; ".join(st[:4]))
+    from openaerostruct.integration.aerostruct_groups import CoupledAS
+    import openmdao.api as _om
+    it = [g for g in p.model.system_iter(recurse=True, typ=_om.Group) if g.pathname == "AS.coupled"]
+    env.holds("C16", "the coupled group carries an iterating nonlinear solver", bool(it) and not isinstance(it[0].nonlinear_solver, _om.NonlinearRunOnce))
